@@ -373,6 +373,16 @@ def bound(ctx: Any) -> List[Ob]:
     return obs
 
 
+@rule('C18.ASK', 'D', expect_min=4)
+def ask(ctx: Any) -> List[Ob]:
+    """The first query of a lookup really goes out: a QU question is asked whatever the duplicate-question history holds
+    (question identity ignores the QU bit, so a QM sighting less than a second old would otherwise silence the lookup's
+    first -- or only -- query); only QM questions go through the history.  Decision table shared with C13.HISTORY."""
+    from .c13 import history_effects, lookup_history_obligations
+
+    return lookup_history_obligations(ctx, 'C18.ASK', history_effects)
+
+
 EXPLANATION = (
     'C18.EXPIRY (decided): writer table of the result fields -- each write outside constructor/setters is dominated by an '
     'is_expired(now) rejection or fed by the expiry-filtered cache reader. C18.MATCH (decided): finite-domain decision table of the '
@@ -380,4 +390,4 @@ EXPLANATION = (
     'test dominates every send and wait; wait = min(next, last) - now; completeness criterion. Listener removal on all exits: '
     'C17.LISTENER; QU-then-QM and omitted questions: C13.QUFIRST / C13.CONST. Not decided: arrival-time behaviour [X].'
 )
-RULES = [expiry, match, bound]
+RULES = [expiry, match, bound, ask]
